@@ -105,20 +105,34 @@ def accepts(fn_name: str, pat: str, s):
 
 
 def extract_re_call(func) -> tuple:
-    """Find the single re.<fn>(<literal pattern>, x) call in the source of func (from the AST)."""
+    """Find the single regex match call in the source of func (from the AST):
+    either  re.<fn>(<literal pattern>, x)  or  <NAME>.<fn>(x)  where NAME is a module-level
+    compiled pattern (its pattern text and flags are read from the real module object)."""
+    import re as _re
     tree = ast.parse(textwrap.dedent(inspect.getsource(func)))
     found = []
     for node in ast.walk(tree):
-        if isinstance(node, ast.Call) and isinstance(node.func, ast.Attribute) \
-                and isinstance(node.func.value, ast.Name) and node.func.value.id == 're':
+        if not (isinstance(node, ast.Call) and isinstance(node.func, ast.Attribute)
+                and node.func.attr in ('match', 'fullmatch', 'search')
+                and isinstance(node.func.value, ast.Name)):
+            continue
+        base = node.func.value.id
+        if base == 're':
             if node.args and isinstance(node.args[0], ast.Constant) and isinstance(node.args[0].value, str):
-                negated = False
-                found.append((node.func.attr, node.args[0].value, node))
+                if len(node.args) > 2 or node.keywords:
+                    raise Unsupported('regex flags')
+                found.append((node.func.attr, node.args[0].value))
             else:
                 raise Unsupported('non-literal pattern')
+        else:
+            obj = getattr(func, '__globals__', {}).get(base)
+            if isinstance(obj, _re.Pattern):
+                if obj.flags & ~_re.UNICODE:
+                    raise Unsupported(f'compiled pattern with flags {obj.flags}')
+                found.append((node.func.attr, obj.pattern))
     if len(found) != 1:
-        raise Unsupported(f'{len(found)} re calls found')
-    return found[0][0], found[0][1]
+        raise Unsupported(f'{len(found)} regex match calls found')
+    return found[0]
 
 
 def check_equivalence(fn_name: str, pat: str, spec_pat: str, timeout_ms: int = 60000) -> dict:
